@@ -11,9 +11,13 @@
     pk <script> <testnet:0|1>             -> ok <str> <outscript|panic> | none
     wifdec <str>                          -> ok <ver> <key> <compr:0|1> <canonical:0|1> | err b58|short|long|checksum
     wifenc <ver> <key> <compr:0|1>        -> ok <str>
+    hist <op> <op> ...                    -> ok <res> ... fin <Enc58str> <Checksum|nil>     (one object, from new(BtcAddr))
+         ops: S:<hrp>:<ver>:<prog> | N (SegwitProg=nil) | E:<str> | C:<bytes>|C:nil | V:<n> | H:<bytes> | s (String()) | o (OutScript())
+         res: s=<str> | o=<script|panic>
 -/
 import GocoinV.Model.Addr
 import GocoinV.Model.AddrWif
+import GocoinV.Model.AddrObj
 import GocoinV.Base.Ripemd160
 import GocoinV.Base.Proto
 open GocoinV
@@ -39,6 +43,34 @@ def errClass : Addr.Err → String
 def optHex : Option Bytes → String
   | some b => Hex.encode b
   | none => "panic"
+
+def parseOp (t : String) : Option Addr.Op :=
+  match t.splitOn ":" with
+  | ["S", hrp, v, p] =>
+    match Hex.decode hrp, v.toNat?, Hex.decode p with
+    | some hrp, some v, some p => some (.setSeg (some (hrp, v, p)))
+    | _, _, _ => none
+  | ["N"] => some (.setSeg none)
+  | ["E", e] => (Hex.decode e).map .setEnc
+  | ["C", "nil"] => some (.setCksum none)
+  | ["C", c] => (Hex.decode c).map fun c => .setCksum (some c)
+  | ["V", v] => match v.toNat? with
+    | some v => if v < 256 then some (.setVer (UInt8.ofNat v)) else none
+    | none => none
+  | ["H", h] => (Hex.decode h).map .setHash
+  | ["s"] => some .callString
+  | ["o"] => some .callOutScript
+  | _ => none
+
+def parseOps : List String → Option (List Addr.Op)
+  | [] => some []
+  | t :: ts => match parseOp t, parseOps ts with
+    | some op, some ops => some (op :: ops)
+    | _, _ => none
+
+def resStr : Addr.Res → String
+  | .str s => s!"s={Hex.encode s}"
+  | .script s => s!"o={optHex s}"
 
 def step (_ : Unit) (toks : List String) : Unit × String :=
   let bad := ((), "bad-op")
@@ -107,6 +139,14 @@ def step (_ : Unit) (toks : List String) : Unit × String :=
         let can := match Base58.decode s with | some pkb => AddrWif.canonicalFlag pkb | none => false
         ((), s!"ok {v.toNat} {Hex.encode k} {Proto.boolStr c} {Proto.boolStr can}")
     | _ => bad
+  | "hist" :: ops =>
+    match parseOps ops with
+    | none => bad
+    | some ops =>
+      let rs := Addr.Obj.trace H ops Addr.Obj.zero
+      let fin := Addr.Obj.exec H ops Addr.Obj.zero
+      let ck := match fin.cksum with | some c => Hex.encode c | none => "nil"
+      ((), " ".intercalate ("ok" :: rs.map resStr ++ ["fin", Hex.encode fin.enc, ck]))
   | ["wifenc", v, k, c] =>
     match v.toNat?, Hex.decode k with
     | some v, some k =>
